@@ -162,6 +162,43 @@ def reqLineClearlyParses (bs : Bytes) : Bool :=
           let mi := w.drop (d + 1)
           allDigits ma && allDigits mi && ma.length ≤ 9 && mi.length ≤ 9
 
+def splitByte (b : Bytes) (sep : Nat) : List Bytes :=
+  (b.foldl (fun (acc : List Bytes × Bytes) c => if c == sep then (acc.1 ++ [acc.2], []) else (acc.1, acc.2 ++ [c])) ([], []))
+  |> fun (l, cur) => l ++ [cur]
+
+def trimBlank (b : Bytes) : Bytes :=
+  let d := b.dropWhile (fun c => c == 32 || c == 9)
+  (d.reverse.dropWhile (fun c => c == 32 || c == 9)).reverse
+
+/-- An extension header line in which a permessage-deflate offer CLEARLY carries a parameter RFC 7692 does
+    not define, or window bits outside 8..15 (plain digits): the wsflate negotiator objects to the handshake.
+    Lines with quotes are left alone (not clear-cut). Independent of Model/Negotiate. -/
+def clearlyObjectionable (lines : List Bytes) : Bool :=
+  if lines.any (·.contains 34) then false else
+  -- the negotiator stops looking once it has accepted an offer, so only the FIRST permessage-deflate offer
+  -- (client order, across the header lines) is certain to be examined
+  let items := (lines.flatMap fun l => splitByte l 44).map fun item => (splitByte item 59).map trimBlank
+  match items.find? (fun it => it.headD [] == strBytes "permessage-deflate") with
+  | none => false
+  | some it =>
+    match it with
+    | _ :: params =>
+      params.any fun p =>
+        let kv := splitByte p 61
+        let k := trimBlank (kv.headD [])
+        let known := [strBytes "server_no_context_takeover", strBytes "client_no_context_takeover",
+                      strBytes "server_max_window_bits", strBytes "client_max_window_bits"]
+        if k.isEmpty then false
+        else if !(k.all Lex.isToken) then false
+        else if !known.contains k then true
+        else match kv with
+          | [_, v] =>
+            let v := trimBlank v
+            (k == strBytes "server_max_window_bits" || k == strBytes "client_max_window_bits") && allDigits v && v.length ≤ 3 &&
+              (let n := natOr (bytesToString v); n < 8 || n > 15)
+          | _ => false
+    | [] => false
+
 /-- Oracle for one server-upgrade observation. `cbRejects`: a rejecting callback is configured. -/
 def judgeUpgrade (cfg : UpCfg) (reqBytes : Bytes) (err protoObs written : String) (zeroCopy : Bool) : String :=
   let wr := hexOr written
@@ -181,6 +218,7 @@ def judgeUpgrade (cfg : UpCfg) (reqBytes : Bytes) (err protoObs written : String
       else if r.method != strBytes "GET" then "bad:non-GET-upgraded"
       else if vok == some false then "bad:bad-http-version-upgraded"
       else if !someOcc r then "bad:non-compliant-request-upgraded"
+      else if cfg.negotiate.isSome && clearlyObjectionable (occs r "sec-websocket-extensions") then "bad:upgraded-although-the-negotiator-objected"
       else
         match respHeader wr "Sec-WebSocket-Accept" with
         | none => "bad:no-accept-header"
